@@ -11,6 +11,7 @@ import (
 	"fmt"
 	"io"
 	"os"
+	"runtime"
 	"strconv"
 	"strings"
 	"sync"
@@ -284,6 +285,71 @@ func seriesStress(seed uint64, index string, ms int) string {
 	}
 	if e := check("after_reopen"); e != "" {
 		return e
+	}
+	return "ok"
+}
+
+// tagCacheStress: for each of a run of tag values, one series carrying it exists, then the first lookup of the
+// value and the creation of a second series run together; a lookup that begins after both were
+// acknowledged must list both (the index caches the series set of a tag value).
+func tagCacheStress(seed uint64, index string, ms int) string {
+	dir, _ := os.MkdirTemp(shardh.WorkDir("stress"), "s-")
+	defer os.RemoveAll(dir)
+	h, err := shardh.New(dir, index)
+	if err != nil {
+		return "err:" + strings.ReplaceAll(err.Error(), " ", "_")
+	}
+	defer h.Close()
+	write := func(val string, j int) error {
+		p, _ := models.NewPoint("s", models.NewTags(map[string]string{"k": val, "j": fmt.Sprint(j)}), models.Fields{"v": int64(j)}, time.Unix(0, base))
+		return h.Store.WriteToShard(shardh.ShardID, []models.Point{p})
+	}
+	// background writers keep every partition of the index busy
+	stop := make(chan struct{})
+	var bg sync.WaitGroup
+	for w := 0; w < 4; w++ {
+		bg.Add(1)
+		go func(w int) {
+			defer bg.Done()
+			for i := 0; ; i++ {
+				select {
+				case <-stop:
+					return
+				default:
+				}
+				p, _ := models.NewPoint("other", models.NewTags(map[string]string{"w": fmt.Sprint(w), "i": fmt.Sprint(i)}), models.Fields{"v": int64(i)}, time.Unix(0, base))
+				h.Store.WriteToShard(shardh.ShardID, []models.Point{p})
+			}
+		}(w)
+	}
+	defer func() { close(stop); bg.Wait() }()
+	deadline := time.Now().Add(time.Duration(ms) * time.Millisecond)
+	for i := 0; time.Now().Before(deadline); i++ {
+		val := fmt.Sprintf("v%d", i)
+		// the first series of the value exists before anybody looks the value up; the first
+		// lookup and the creation of the second series run together
+		if err := write(val, 0); err != nil {
+			return "TAGCACHE write_failed:_" + strings.ReplaceAll(err.Error(), " ", "_")
+		}
+		var wg sync.WaitGroup
+		var werr error
+		wg.Add(2)
+		go func() {
+			defer wg.Done()
+			if uint64(i)%3 == seed%3 {
+				runtime.Gosched()
+			}
+			h.SeriesBy("s", "k", "eq", val)
+		}()
+		go func() { defer wg.Done(); werr = write(val, 1) }()
+		wg.Wait()
+		if werr != nil {
+			return "TAGCACHE write_failed:_" + strings.ReplaceAll(werr.Error(), " ", "_")
+		}
+		got := h.SeriesBy("s", "k", "eq", val)
+		if n := len(strings.Split(got, ";")); got == "-" || n != 2 {
+			return fmt.Sprintf("TAGCACHE tag_value_%s_has_2_acknowledged_series,_a_lookup_that_began_afterwards_lists:_%s", val, got)
+		}
 	}
 	return "ok"
 }
@@ -877,6 +943,8 @@ func runOp(op string) (out string) {
 			rounds = int(i64(f[3]))
 		}
 		return fieldRace(uint64(i64(f[1])), f[2], rounds)
+	case "stress-tagcache":
+		return tagCacheStress(uint64(i64(f[1])), f[2], int(i64(f[3])))
 	case "stress-series":
 		return seriesStress(uint64(i64(f[1])), f[2], int(i64(f[3])))
 	case "stress-ooo":
@@ -913,6 +981,7 @@ func (Prop) Generate(r *fw.Rand, tier string) []fw.Case {
 		cases = append(cases, fw.Case{Ops: []string{fmt.Sprintf("stress-field %d %s %d", r.Intn(1000), idx, ms*2)}, Tags: []string{"field"}})
 		cases = append(cases, fw.Case{Ops: []string{fmt.Sprintf("stress-ooo %d %s %d", r.Intn(1000), idx, ms)}, Tags: []string{"ooo"}})
 		cases = append(cases, fw.Case{Ops: []string{fmt.Sprintf("stress-series %d %s %d", r.Intn(1000), idx, ms)}, Tags: []string{"series"}})
+		cases = append(cases, fw.Case{Ops: []string{fmt.Sprintf("stress-tagcache %d tsi1 %d", r.Intn(1000), ms*2) /* only the disk-based index caches the sets */}, Tags: []string{"tagcache"}})
 		cases = append(cases, fw.Case{Ops: []string{fmt.Sprintf("stress-newfields %d %s %d", r.Intn(1000), idx, ms/10)}, Tags: []string{"newfields"}})
 		cases = append(cases, fw.Case{Ops: []string{fmt.Sprintf("stress-hh %d %d", r.Intn(500)*2, ms)}, Tags: []string{"hh"}})
 		cases = append(cases, fw.Case{Ops: []string{fmt.Sprintf("stress-hh %d %d", r.Intn(500)*2+1, ms)}, Tags: []string{"hh-bursty"}})
@@ -923,7 +992,7 @@ func (Prop) Generate(r *fw.Rand, tier string) []fw.Case {
 }
 
 func (Prop) Describe(cfg *fw.Config) {
-	cfg.Rule = "stress scenarios on real components: (shard) 4 writers with their own series, a snapshotter, a compactor of all files, a writer+deleter of another measurement and 2 readers on one shard for 0.4 s (quick) / 1.5 s (thorough), inmem and tsi1: every read must hold all points acknowledged before it began, and at rest and after a reopen all acknowledged points; (field) 800 (quick) / 3000 (thorough) rounds of 4 goroutines writing one new field with four different types: exactly one is accepted and exactly its value is readable; (hh) 4 appenders and a drainer on a hinted-handoff queue with 4 KB segments: every acknowledged block is drained once, in per-appender order; (hhsend) 4 appenders against the real sender (NodeProcessor.SendWrite in a loop) with a recording shard writer: every acknowledged block is delivered, in per-appender order, none skipped; (ooo) one writer sending a series in descending time order against four readers: every read holds every point acknowledged before it began, once; (newfields) rounds of eight goroutines writing different new fields of one measurement at once: every acknowledged write is readable, also after a restart; (series) four writers creating new series all the time on tsi1 with a 256-byte log file (so that the log is swapped and compacted every few writes) and on inmem: every acknowledged series is listed and found by its tag at rest, after the index compactions and after a reopen; (hh, odd seeds) pausing appenders on 700-byte segments; (hhcatchup) the real sender, caught up with the appenders, meets a burst of eight appends when it exhausts the head segment (three-block segments): every accepted block is handed out once; a watchdog reports workers that do not stop; thorough tier: the harness is built with the Go race detector (a report ends the run); non-trivial = every scenario; distinct = distinct op list"
+	cfg.Rule = "stress scenarios on real components: (shard) 4 writers with their own series, a snapshotter, a compactor of all files, a writer+deleter of another measurement and 2 readers on one shard for 0.4 s (quick) / 1.5 s (thorough), inmem and tsi1: every read must hold all points acknowledged before it began, and at rest and after a reopen all acknowledged points; (field) 800 (quick) / 3000 (thorough) rounds of 4 goroutines writing one new field with four different types: exactly one is accepted and exactly its value is readable; (hh) 4 appenders and a drainer on a hinted-handoff queue with 4 KB segments: every acknowledged block is drained once, in per-appender order; (hhsend) 4 appenders against the real sender (NodeProcessor.SendWrite in a loop) with a recording shard writer: every acknowledged block is delivered, in per-appender order, none skipped; (ooo) one writer sending a series in descending time order against four readers: every read holds every point acknowledged before it began, once; (newfields) rounds of eight goroutines writing different new fields of one measurement at once: every acknowledged write is readable, also after a restart; (series) four writers creating new series all the time on tsi1 with a 256-byte log file (so that the log is swapped and compacted every few writes) and on inmem: every acknowledged series is listed and found by its tag at rest, after the index compactions and after a reopen; (tagcache) for a run of tag values, the first lookup of a value runs together with the creation of a second series carrying it (four background writers of new series): a lookup that begins after both were acknowledged lists both; (hh, odd seeds) pausing appenders on 700-byte segments; (hhcatchup) the real sender, caught up with the appenders, meets a burst of eight appends when it exhausts the head segment (three-block segments): every accepted block is handed out once; a watchdog reports workers that do not stop; thorough tier: the harness is built with the Go race detector (a report ends the run); non-trivial = every scenario; distinct = distinct op list"
 }
 
 func (Prop) Trivial(c fw.Case, out []string) bool { return false }
